@@ -96,13 +96,13 @@ def main(argv):
         if gen_default.exists():
             shutil.copy(gen_default, core.LEAN / "Cfi" / "Generated.lean")
     # 2. build
-    b = core.lake_build()
+    b = core.lake_build(mod.LEAN_MODULES)
     if not b["driver_ok"]:
         # constants that no longer type-check in the model: fall back to the committed defaults
         if gen_default.exists():
             shutil.copy(gen_default, core.LEAN / "Cfi" / "Generated.lean")
             broken.append({"obligation": "model does not build with regenerated constants", "detail": b["log"][-1500:]})
-            b = core.lake_build()
+            b = core.lake_build(mod.LEAN_MODULES)
     if not b["driver_ok"]:
         print("ERROR lean driver does not build\n" + b["log"][-3000:])
         return 2
